@@ -69,7 +69,7 @@ def sites_c04(inf, levels=None, coords=False):
             if coords:
                 for d in range(nd):
                     for side in (0, 1):
-                        for cells in (1, -2):
+                        for cells in (1, -2, 0.5):
                             out.append({"op": "physbound", "lv": lv, "box": bi, "dim": d, "side": side, "cells": cells})
     return out
 
